@@ -300,14 +300,16 @@ def poStep (s : St) (ws : List String) : St × String :=
     | ["strndup", h, k] =>
       let b := (hexArg h).take (natArg k)
       allocOut "strndup" (b.length + 1) (" " ++ hexOut b)
-    | ["printf", h, v] => let b := XStr.fmt (hexArg h) (intArg v); allocOut "printf" (b.length + 1) (" " ++ hexOut b)
+    | ["printf", h, v] =>
+      let (size, b) := Pool.printfAlloc (XStr.fmt (hexArg h) (intArg v)); allocOut "printf" size (" " ++ hexOut b)
     | "copyarr" :: hs =>
       let v := hs.map hexArg
       if v.isEmpty then (s, "copyarr nil")
       else (setMain (Pool.copyArrAlloc p v), "copyarr" ++ String.join (v.map fun t => s!" {hexOut t}") ++ " end")
     | [op, h, c, w] =>
       if op == "split" ∨ op == "psplit" then
-        let toks := Pool.splitTokens (hexArg h) (hexArg c) (w == "1")
+        let toks := if op == "split" then Pool.splitTokens (hexArg h) (hexArg c) (w == "1")
+                    else Pool.printfSplit (hexArg h) (hexArg c) (w == "1")
         (setMain (Pool.splitAlloc p (hexArg h) toks), op ++ String.join (toks.map fun t => s!" {hexOut t}"))
       else if op == "calloc2" then (s, "bad-op")
       else (s, "bad-op")
@@ -322,17 +324,17 @@ def poStep (s : St) (ws : List String) : St × String :=
         let (q', u, o) := Pool.alloc q (natArg n)
         ({ s with po := some (Pool.setKid y (natArg c) q') }, s!"calloc2 {u}:{o}" ++ poStat q')
     | ["cud", c, id] =>
-      match Pool.kid y (natArg c) with
+      match Pool.kidUdSet y (natArg c) (natArg id) with
       | none => (s, "cud nochild")
-      | some q => ({ s with po := some (Pool.setKid y (natArg c) { q with ud := some (natArg id) }) }, "cud" ++ udFree q.ud.toList)
+      | some (y', f) => ({ s with po := some y' }, "cud" ++ udFree f)
     | ["cdestroy", c] =>
       match Pool.kid y (natArg c) with
       | none => (s, "cdestroy nochild")
       | some _ => let (y', f) := Pool.destroyKid y (natArg c); ({ s with po := some y' }, "cdestroy 1" ++ udFree f)
-    | ["ud", id] => (setMain { p with ud := some (natArg id) }, "ud" ++ udFree p.ud.toList)
+    | ["ud", id] => (setMain (Pool.udSet p (natArg id)).1, "ud" ++ udFree (Pool.udSet p (natArg id)).2)
     | ["udget"] => (s, s!"udget {p.ud.getD 0}")
-    | ["uddetach"] => (setMain { p with ud := none }, s!"uddetach {p.ud.getD 0}")
-    | ["ref"] => (setMain { p with refs := p.refs + 1 }, s!"ref {p.refs + 1}")
+    | ["uddetach"] => (setMain (Pool.udDetach p).1, s!"uddetach {p.ud.getD 0}")
+    | ["ref"] => ({ s with po := some (Pool.ref y) }, s!"ref {p.refs + 1}")
     | ["destroy"] =>
       match Pool.destroy y with
       | (y', none) => ({ s with po := some y' }, "destroy 0" ++ udFree [])
